@@ -1,2 +1,477 @@
+(* C09/Compose.v — the layers composed: for complete runs of the tick machine (stack operations,
+   delays, _schedule_update with its shortcuts, brightness / colour correction, channel mapping,
+   software / direct fade channel, VirtualLight) the hardware shows the corrected logical colour
+   whenever no fade is in progress.  Also: _get_color_and_fade for any max_fade_ms. *)
 From Common Require Import Prelude.
 From C09 Require Import Model Lemmas.
+Open Scope Z_scope.
+
+(* ------------------------------------------------------------------------------------------ *)
+(* 1. every operation sends at most one command, and it is the new _last_fade_target *)
+
+Lemma lstep_sent l now o :
+  (snd (lstep l now o) = [] /\ last (fst (lstep l now o)) = last l) \/
+  (exists T, snd (lstep l now o) = [T] /\ last (fst (lstep l now o)) = Some T).
+Proof.
+  assert (SU : forall l', last l' = last l ->
+            (snd (schedule_update l' now) = [] /\ last (fst (schedule_update l' now)) = last l) \/
+            (exists T, snd (schedule_update l' now) = [T] /\ last (fst (schedule_update l' now)) = Some T)).
+  { intros l' E. rewrite <- E. apply schedule_update_sent. }
+  unfold lstep, lstep_gen. destruct o.
+  - unfold do_color. destruct (color_changes (stack l) p); [apply SU; reflexivity|left; cbn; auto].
+  - unfold do_remove. destruct (scan_key k (stack l) true) as [[[sub p] cc]|]; [|left; auto].
+    set (l' := if _ =? 0 then _ else _).
+    assert (E : last l' = last l) by (unfold l'; destruct (_ =? 0); reflexivity).
+    destruct cc; [apply SU; exact E|left; cbn; auto].
+  - unfold do_clear. apply SU. reflexivity.
+  - unfold do_fire. destruct (scan_fadeout k (stack l) true) as [cc|]; [|left; cbn; auto].
+    destruct cc; [apply SU; reflexivity|left; cbn; auto].
+Qed.
+
+Definition lF (now : Z) := fun (acc : lstate * list tgtT) o =>
+  let '(l1, c1) := lstep (fst acc) now o in (l1, snd acc ++ c1).
+
+Lemma lfold_gen now ops : forall l cs,
+  exists new, snd (fold_left (lF now) ops (l, cs)) = cs ++ new /\
+    ((new = [] /\ last (fst (fold_left (lF now) ops (l, cs))) = last l) \/
+     (exists pre T, new = pre ++ [T] /\ last (fst (fold_left (lF now) ops (l, cs))) = Some T)).
+Proof.
+  induction ops as [|o r IH]; intros l cs; cbn [fold_left].
+  - exists []. rewrite app_nil_r. split; [reflexivity|left; auto].
+  - destruct (lstep l now o) as [l1 c1] eqn:E.
+    assert (U : lF now (l, cs) o = (l1, cs ++ c1)) by (unfold lF; cbn [fst snd]; rewrite E; reflexivity).
+    rewrite U.
+    destruct (IH l1 (cs ++ c1)) as [new [A B]]. exists (c1 ++ new). rewrite A, app_assoc. split; [reflexivity|].
+    pose proof (lstep_sent l now o) as S. rewrite E in S. cbn [fst snd] in S.
+    destruct B as [[B1 B2]|[pre [T [B1 B2]]]].
+    + subst new. rewrite app_nil_r. destruct S as [[S1 S2]|[T [S1 S2]]].
+      * left. split; [exact S1|congruence].
+      * right. exists [], T. split; [exact S1|congruence].
+    + right. exists (c1 ++ pre), T. subst new. rewrite app_assoc. auto.
+Qed.
+
+Lemma lfold_sent now l ops :
+  (snd (lfold now l ops) = [] /\ last (fst (lfold now l ops)) = last l) \/
+  (exists pre T, snd (lfold now l ops) = pre ++ [T] /\ last (fst (lfold now l ops)) = Some T).
+Proof.
+  unfold lfold. destruct (lfold_gen now ops l []) as [new [A B]]. fold (lF now). rewrite A. cbn [app].
+  destruct B as [[B1 B2]|[pre [T [B1 B2]]]]; [left; subst; auto|right; eauto].
+Qed.
+
+Lemma lfold_inv now ops : forall l cs now0,
+  Inv l now0 -> now0 <= now -> 0 <= now -> Inv (fst (fold_left (lF now) ops (l, cs))) now.
+Proof.
+  induction ops as [|o r IH]; intros l cs now0 I H1 H2; cbn [fold_left].
+  - cbn. destruct I as (S & A & B). repeat split; auto. destruct B; [left; lia|right; auto].
+  - destruct (lstep l now o) as [l1 c1] eqn:E.
+    assert (U : lF now (l, cs) o = (l1, cs ++ c1)) by (unfold lF; cbn [fst snd]; rewrite E; reflexivity).
+    rewrite U.
+    apply (IH l1 (cs ++ c1) now); [|lia|exact H2].
+    replace l1 with (fst (lstep l now o)) by (rewrite E; reflexivity).
+    unfold lstep. eapply step_inv; eauto.
+Qed.
+
+(* ------------------------------------------------------------------------------------------ *)
+(* 2. the fade channel follows the last command *)
+
+Lemma last_opt_app {A} (o : option A) a b : last_opt o (a ++ b) = last_opt (last_opt o a) b.
+Proof. unfold last_opt. apply fold_left_app. Qed.
+
+Lemma last_opt_snoc {A} (o : option A) a x : last_opt o (a ++ [x]) = Some x.
+Proof. rewrite last_opt_app. reflexivity. Qed.
+
+Definition tgt_b (T : tgtT) : Z := min3 (tg_c1 T).
+
+Definition cF (kind now : Z) := fun (acc : chan * list hwcmd) (T : tgtT) =>
+  let '(c', out) := chan_set_fade (kind_maxf kind) now (fst acc)
+                      (min3 (tg_c0 T)) (tg_t0 T) (min3 (tg_c1 T)) (tg_t1 T) in
+  (c', snd acc ++ out).
+
+(* after feeding pre ++ [T]: a task heading for T's target, or the target was commanded last *)
+Lemma feed_last kind now pre T c hs :
+  let r := fold_left (cF kind now) (pre ++ [T]) (c, hs) in
+  (exists k, fst r = Some k /\ b1 k = tgt_b T) \/
+  (fst r = None /\ exists h f, snd r = h ++ [(tgt_b T * SC, f)]).
+Proof.
+  cbn zeta. rewrite fold_left_app. cbn [fold_left].
+  destruct (fold_left (cF kind now) pre (c, hs)) as [c0 h0]. unfold cF. cbn [fst snd].
+  unfold chan_set_fade. destruct (_ >? kind_maxf kind); cbn [fst snd].
+  - left. eexists. split; [reflexivity|reflexivity].
+  - right. split; [reflexivity|]. eauto.
+Qed.
+
+Lemma chan_run_spec maxf interval now c c' out :
+  chan_run maxf interval now c = (c', out) ->
+  (c' = c /\ out = []) \/
+  (exists k, c = Some k /\
+     ((exists k' v, c' = Some k' /\ b1 k' = b1 k /\ out = [v]) \/
+      (c' = None /\ exists f, out = [(b1 k * SC, f)]))).
+Proof.
+  unfold chan_run. destruct c as [k|]; [|intro H; inversion H; auto].
+  destruct (wake k <=? now); [|intro H; inversion H; auto].
+  unfold task_step. destruct (_ >? maxf); intro H; inversion H; subst; right; exists k; split; auto.
+  - left. eexists. eexists. repeat split; reflexivity.
+  - right. split; [reflexivity|]. eauto.
+Qed.
+
+(* ------------------------------------------------------------------------------------------ *)
+(* 3. invariant of complete runs *)
+
+Definition chan_ok (kind : Z) (s : state) : Prop :=
+  kind_has_chan kind = true ->
+  match ch s with
+  | Some k => exists T, lcmd s = Some T /\ b1 k = tgt_b T
+  | None => hwb s = option_map (fun T => tgt_b T * SC) (lcmd s)
+  end.
+
+Definition J (kind : Z) (tab : list (list Z)) (s : state) (now : Z) : Prop :=
+  Inv (ls s) now /\
+  lcmd s = option_map (corr_T (cfac s) (kind_tab kind tab)) (last (ls s)) /\
+  chan_ok kind s.
+
+Lemma J_init kind tab : J kind tab sinit 0.
+Proof.
+  unfold J, sinit. cbn. split; [exact Inv_init|]. split; [reflexivity|].
+  unfold chan_ok. cbn. reflexivity.
+Qed.
+
+Lemma run_ops_J kind tab now f4 s ops now0 :
+  J kind tab s now0 -> now0 <= now -> 0 <= now ->
+  J kind tab (fst (fst (run_ops kind tab now f4 s ops))) now.
+Proof.
+  intros (I & LC & CO) H1 H2. unfold run_ops.
+  pose proof (lfold_sent now (ls s) ops) as SENT.
+  assert (IL : Inv (fst (lfold now (ls s) ops)) now) by (unfold lfold; fold (lF now); eapply lfold_inv; eauto).
+  destruct (lfold now (ls s) ops) as [l' cmds0]. cbn [fst snd] in SENT, IL.
+  set (cmds := map (corr_T f4 (kind_tab kind tab)) cmds0).
+  destruct (kind_has_chan kind) eqn:HC.
+  - (* a light with a fade channel *)
+    destruct (feed_chan kind now (ch s) cmds) as [c1 h1] eqn:FE.
+    destruct (chan_run (kind_maxf kind) (kind_interval kind) now c1) as [c2 h2] eqn:RU.
+    cbn [fst snd]. unfold J. cbn [ls ch lcmd cfac hwb]. split; [exact IL|].
+    apply chan_run_spec in RU.
+    destruct SENT as [[S1 S2]|[pre [T [S1 S2]]]].
+    + (* nothing sent *)
+      subst cmds0. cbn in cmds. subst cmds. cbn [last_opt fold_left is_nil]. rewrite S2. split; [exact LC|].
+      unfold feed_chan in FE. cbn in FE. inversion FE; subst c1 h1. cbn [app].
+      unfold chan_ok. cbn [ch lcmd hwb]. intros _. specialize (CO HC).
+      destruct RU as [[R1 R2]|[k [R1 RU]]].
+      * subst c2 h2. cbn. exact CO.
+      * rewrite R1 in CO. destruct CO as [T [E1 E2]]. destruct RU as [[k' [v [R2 [B R3]]]]|[R2 [f R3]]]; subst c2 h2.
+        -- exists T. split; [exact E1|congruence].
+        -- cbn. rewrite E1. cbn. rewrite E2. reflexivity.
+    + (* the last command sent is T *)
+      subst cmds0. unfold cmds. rewrite map_app. cbn [map]. rewrite last_opt_snoc.
+      assert (NN : is_nil (pre ++ [T]) = false) by (destruct pre; reflexivity). rewrite NN.
+      rewrite S2. cbn [option_map]. split; [reflexivity|].
+      set (T' := corr_T f4 (kind_tab kind tab) T) in *.
+      unfold feed_chan in FE. unfold cmds in FE. rewrite map_app in FE. cbn [map] in FE. fold T' in FE.
+      pose proof (feed_last kind now (map (corr_T f4 (kind_tab kind tab)) pre) T' (ch s) []) as FL.
+      cbn zeta in FL. unfold cF in FL. rewrite FE in FL. cbn [fst snd] in FL.
+      unfold chan_ok. cbn [ch lcmd hwb]. intros _.
+      destruct FL as [[k [F1 B]]|[F1 [h [f E]]]]; subst c1.
+      * destruct RU as [[R1 R2]|[k0 [K0 RU]]].
+        -- subst c2 h2. exists T'. auto.
+        -- inversion K0; subst k0. destruct RU as [[k' [v [R2 [B' R3]]]]|[R2 [f R3]]]; subst c2 h2.
+           ++ exists T'. split; [reflexivity|congruence].
+           ++ rewrite map_app. cbn [map]. rewrite last_opt_snoc. cbn. rewrite B. reflexivity.
+      * destruct RU as [[R1 R2]|[k0 [K0 _]]]; [|discriminate]. subst c2 h2.
+        rewrite app_nil_r, E, map_app. cbn [map]. rewrite last_opt_snoc. reflexivity.
+  - cbn [fst snd]. unfold J. cbn [ls ch lcmd cfac hwb]. split; [exact IL|].
+    split; [|unfold chan_ok; congruence].
+    destruct SENT as [[S1 S2]|[pre [T [S1 S2]]]].
+    + subst cmds0. cbn. rewrite S2. exact LC.
+    + subst cmds0. unfold cmds. rewrite map_app. cbn [map]. rewrite last_opt_snoc.
+      assert (NN : is_nil (pre ++ [T]) = false) by (destruct pre; reflexivity). rewrite NN, S2. reflexivity.
+Qed.
+
+(* times of one tick: the instants at which delays fired, then the tick itself; non-decreasing *)
+Fixpoint times_ok (t0 : Z) (ts : list Z) : Prop :=
+  match ts with [] => True | t :: r => t0 <= t /\ times_ok t r end.
+Definition tick_times (tk : tick) : list Z := map fst (fired tk) ++ [now_ tk].
+Fixpoint ticks_ok (t0 : Z) (tks : list tick) : Prop :=
+  match tks with [] => True | tk :: r => times_ok t0 (tick_times tk) /\ ticks_ok (now_ tk) r end.
+Definition end_time (t0 : Z) (tks : list tick) : Z := List.last (map now_ tks) t0.
+
+Definition fF (kind : Z) (tab : list (list Z)) (f4 : Z) :=
+  fun (acc : state * list tgtT * list hwcmd) (g : Z * list Z) =>
+    let '(s0, cm0, hw0) := acc in
+    let '(s1, cm1, hw1) := run_ops kind tab (fst g) f4 s0 (map OFire (snd g)) in
+    (s1, cm0 ++ cm1, hw0 ++ hw1).
+
+Lemma run_fired_J kind tab f4 : forall fs s cm hw now0 now,
+  J kind tab s now0 -> 0 <= now0 -> times_ok now0 (map fst fs ++ [now]) ->
+  exists t, J kind tab (fst (fst (fold_left (fF kind tab f4) fs (s, cm, hw)))) t /\ 0 <= t <= now.
+Proof.
+  induction fs as [|g r IH]; intros s cm hw now0 now I H0 T; cbn [fold_left].
+  - cbn in T. exists now0. cbn. split; [exact I|lia].
+  - cbn [map app times_ok] in T. destruct T as [T1 T2].
+    destruct (run_ops kind tab (fst g) f4 s (map OFire (snd g))) as [[s1 cm1] hw1] eqn:E.
+    assert (U : fF kind tab f4 (s, cm, hw) g = (s1, cm ++ cm1, hw ++ hw1)) by (unfold fF; rewrite E; reflexivity).
+    rewrite U.
+    apply (IH s1 (cm ++ cm1) (hw ++ hw1) (fst g) now); [|lia|exact T2].
+    replace s1 with (fst (fst (run_ops kind tab (fst g) f4 s (map OFire (snd g))))) by (rewrite E; reflexivity).
+    eapply run_ops_J; eauto. lia.
+Qed.
+
+Lemma tick_step_J kind tab s tk now0 :
+  J kind tab s now0 -> 0 <= now0 -> times_ok now0 (tick_times tk) ->
+  J kind tab (fst (tick_step kind tab s tk)) (now_ tk) /\ 0 <= now_ tk.
+Proof.
+  intros I H0 T. unfold tick_step, run_fired. fold (fF kind tab (fac_ tk)).
+  destruct (run_fired_J kind tab (fac_ tk) (fired tk) s [] [] now0 (now_ tk) I H0 T) as [t [I0 Ht]].
+  destruct (fold_left (fF kind tab (fac_ tk)) (fired tk) (s, [], [])) as [[s0 cm0] hw0]. cbn [fst] in I0.
+  pose proof (run_ops_J kind tab (now_ tk) (fac_ tk) s0 [] t I0 ltac:(lia) ltac:(lia)) as I1.
+  destruct (run_ops kind tab (now_ tk) (fac_ tk) s0 []) as [[s1 cm1] hw1]. cbn [fst] in I1.
+  pose proof (run_ops_J kind tab (now_ tk) (fac_ tk) s1 (ops_ tk) (now_ tk) I1 ltac:(lia) ltac:(lia)) as I2.
+  destruct (run_ops kind tab (now_ tk) (fac_ tk) s1 (ops_ tk)) as [[s2 cm2] hw2]. cbn [fst] in I2.
+  cbn [fst]. split; [exact I2|lia].
+Qed.
+
+Lemma run_state_J kind tab : forall tks s now0,
+  J kind tab s now0 -> 0 <= now0 -> ticks_ok now0 tks ->
+  J kind tab (run_state kind tab s tks) (end_time now0 tks) /\ 0 <= end_time now0 tks.
+Proof.
+  induction tks as [|tk r IH]; intros s now0 I H0 T.
+  - cbn. auto.
+  - cbn [ticks_ok] in T. destruct T as [T1 T2].
+    destruct (tick_step_J kind tab s tk now0 I H0 T1) as [I1 H1].
+    specialize (IH (fst (tick_step kind tab s tk)) (now_ tk) I1 H1 T2).
+    unfold run_state in *. cbn [fold_left].
+    replace (end_time now0 (tk :: r)) with (end_time (now_ tk) r); [exact IH|].
+    unfold end_time. cbn [map]. destruct (map now_ r) eqn:E; [reflexivity|].
+    cbn [List.last]. clear. generalize z. induction l as [|y l' IHl]; intro x; cbn; [reflexivity|apply IHl].
+Qed.
+
+(* ------------------------------------------------------------------------------------------ *)
+(* 4. what the hardware shows *)
+
+Lemma chan_map_len kind a b : length (chan_map kind a) = length (chan_map kind b).
+Proof.
+  destruct a as [[a1 a2] a3], b as [[b1 b2] b3]. unfold chan_map.
+  repeat match goal with |- context [if ?x then _ else _] => destruct x end; reflexivity.
+Qed.
+
+Lemma map2_target (f : Z -> Z -> Z) (g : Z -> Z) : forall a b,
+  length a = length b -> (forall x y, f x y = g y) -> map2 f a b = map g b.
+Proof.
+  induction a as [|x a IH]; destruct b as [|y b]; cbn; intros L H; try discriminate; [reflexivity|].
+  rewrite H, IH; auto.
+Qed.
+
+Lemma vl_b_over sb st tb te now : te <= now -> vl_b sb st tb te now = tb * SC.
+Proof. intro H. unfold vl_b. destruct (te >? now) eqn:E; [apply Z.gtb_lt in E; lia|reflexivity]. Qed.
+
+Definition scaled (l : list Z) : list Z := map (fun x => x * SC) l.
+
+Lemma hw_equals_logical_run_l : forall kind tab tks,
+  ticks_ok 0 tks ->
+  let s := run_state kind tab sinit tks in
+  let now := end_time 0 tks in
+  rest (stack (ls s)) now = true -> ch s = None ->
+  match lcmd s with
+  | Some _ => hw_now kind s now =
+              scaled (chan_map kind (corr (cfac s) (kind_tab kind tab) (col (stack (ls s)) now)))
+  | None => col (stack (ls s)) now = off /\ hw_now kind s now = map (fun _ => 0) (chan_map kind off)
+  end.
+Proof.
+  intros kind tab tks T s now R CN.
+  destruct (run_state_J kind tab tks sinit 0 (J_init kind tab) ltac:(lia) T) as [(I & LC & CO) Hn].
+  fold s in I, LC, CO. fold now in I, Hn.
+  destruct I as (S & A & B).
+  destruct (rest_target _ _ R) as [C D].
+  assert (HT : hw_target (ls s) = col (stack (ls s)) now) by congruence.
+  assert (H1 : hw_t1 (ls s) <= now) by (destruct B; lia).
+  unfold hw_target, hw_t1 in HT, H1.
+  destruct (last (ls s)) as [L|] eqn:EL.
+  - cbn [option_map] in LC. rewrite LC. unfold hw_now. rewrite LC.
+    destruct (kind_has_chan kind) eqn:HC.
+    + specialize (CO HC). rewrite CN, LC in CO. cbn [option_map] in CO. rewrite CO.
+      unfold tgt_b, corr_T. cbn [tg_c1]. rewrite HT.
+      assert (K : kind = 3 \/ kind = 4).
+      { unfold kind_has_chan in HC. apply orb_true_iff in HC as [E|E]; apply Z.eqb_eq in E; auto. }
+      destruct (corr (cfac s) (kind_tab kind tab) (col (stack (ls s)) now)) as [[r g] b].
+      destruct K; subst kind; reflexivity.
+    + unfold corr_T. cbn [tg_c0 tg_c1 tg_t0 tg_t1]. rewrite HT. unfold scaled.
+      apply map2_target; [apply chan_map_len|].
+      intros x y. apply vl_b_over. exact H1.
+  - cbn [option_map] in LC. rewrite LC. split; [congruence|].
+    unfold hw_now. rewrite LC. destruct (kind_has_chan kind) eqn:HC; [|reflexivity].
+    specialize (CO HC). rewrite CN, LC in CO. cbn in CO. rewrite CO.
+    assert (K : kind = 3 \/ kind = 4).
+    { unfold kind_has_chan in HC. apply orb_true_iff in HC as [E|E]; apply Z.eqb_eq in E; auto. }
+    destruct K; subst kind; reflexivity.
+Qed.
+
+(* the channel mapping of RGB / RGBW lights loses nothing: the colour can be read back from the channels *)
+Definition recon (kind : Z) (l : list Z) : rgb :=
+  match l with
+  | [r; g; b] => (r, g, b)
+  | [r; g; b; w] =>
+      if kind =? 2 then (r + w, g + w, b + w)
+      else if kind =? 7 then (if (r =? 0) && (g =? 0) && (b =? 0) then (w, w, w) else (r, g, b))
+      else (r, g, b)
+  | _ => off
+  end.
+
+Lemma recon_chan_map_l kind c :
+  kind = 0 \/ kind = 2 \/ kind = 6 \/ kind = 7 \/ kind = 8 -> recon kind (chan_map kind c) = c.
+Proof.
+  destruct c as [[r g] b]. intros [K|[K|[K|[K|K]]]]; subst kind; cbn.
+  - reflexivity.
+  - f_equal; [f_equal|]; lia.
+  - reflexivity.
+  - destruct ((r =? g) && (g =? b)) eqn:E.
+    + apply andb_true_iff in E as [E1 E2]. apply Z.eqb_eq in E1, E2. subst. cbn. reflexivity.
+    + cbn. destruct ((r =? 0) && (g =? 0) && (b =? 0)) eqn:F; [|reflexivity].
+      apply andb_true_iff in F as [F F3]. apply andb_true_iff in F as [F1 F2].
+      apply Z.eqb_eq in F1, F2, F3. subst. cbn in E. discriminate.
+  - reflexivity.
+Qed.
+
+Example ex_recon : chan_map 7 (9, 9, 9) = [0; 0; 0; 9] /\ chan_map 7 (9, 8, 9) = [9; 8; 9; 0] /\
+  chan_map 8 (9, 8, 7) = [9; 8; 7; 7] /\ chan_map 2 (9, 8, 7) = [2; 1; 0; 7].
+Proof. vm_compute. auto. Qed.
+
+(* with a constant brightness factor the factor of the last command is that factor *)
+Definition facs_all (f : Z) (tks : list tick) : Prop := Forall (fun tk => fac_ tk = f) tks.
+
+Definition KF (f : Z) (s : state) : Prop := last (ls s) = None \/ cfac s = f.
+
+Lemma run_ops_KF kind tab now f s ops : KF f s -> KF f (fst (fst (run_ops kind tab now f s ops))).
+Proof.
+  intro K. unfold run_ops.
+  pose proof (lfold_sent now (ls s) ops) as SENT.
+  destruct (lfold now (ls s) ops) as [l' cmds0]. cbn [fst snd] in SENT.
+  destruct (if kind_has_chan kind then _ else _) as [c1 h1].
+  destruct (if kind_has_chan kind then _ else _) as [c2 h2].
+  cbn [fst]. unfold KF. cbn [ls cfac].
+  destruct SENT as [[S1 S2]|[pre [T [S1 S2]]]].
+  - subst cmds0. cbn. rewrite S2. exact K.
+  - subst cmds0. assert (NN : is_nil (pre ++ [T]) = false) by (destruct pre; reflexivity). rewrite NN. auto.
+Qed.
+
+Lemma run_state_KF kind tab f : forall tks s, facs_all f tks -> KF f s -> KF f (run_state kind tab s tks).
+Proof.
+  induction tks as [|tk r IH]; intros s F K; [exact K|].
+  inversion F as [|? ? F1 F2]; subst. unfold run_state in *. cbn [fold_left]. apply IH; [exact F2|].
+  unfold tick_step, run_fired. fold (fF kind tab (fac_ tk)).
+  assert (G : forall fs s0 cm hw, KF (fac_ tk) s0 ->
+            KF (fac_ tk) (fst (fst (fold_left (fF kind tab (fac_ tk)) fs (s0, cm, hw))))).
+  { induction fs as [|g fs IHf]; intros s0 cm hw K0; cbn [fold_left]; [exact K0|].
+    destruct (run_ops kind tab (fst g) (fac_ tk) s0 (map OFire (snd g))) as [[s1 cm1] hw1] eqn:E.
+    assert (U : fF kind tab (fac_ tk) (s0, cm, hw) g = (s1, cm ++ cm1, hw ++ hw1)) by (unfold fF; rewrite E; reflexivity).
+    rewrite U.
+    apply IHf. replace s1 with (fst (fst (run_ops kind tab (fst g) (fac_ tk) s0 (map OFire (snd g)))))
+      by (rewrite E; reflexivity). apply run_ops_KF. exact K0. }
+  specialize (G (fired tk) s [] [] K).
+  destruct (fold_left (fF kind tab (fac_ tk)) (fired tk) (s, [], [])) as [[s0 cm0] hw0]. cbn [fst] in G.
+  pose proof (run_ops_KF kind tab (now_ tk) (fac_ tk) s0 [] G) as G1.
+  destruct (run_ops kind tab (now_ tk) (fac_ tk) s0 []) as [[s1 cm1] hw1]. cbn [fst] in G1.
+  pose proof (run_ops_KF kind tab (now_ tk) (fac_ tk) s1 (ops_ tk) G1) as G2.
+  destruct (run_ops kind tab (now_ tk) (fac_ tk) s1 (ops_ tk)) as [[s2 cm2] hw2]. cbn [fst] in G2.
+  exact G2.
+Qed.
+
+Lemma hw_equals_logical_run_const_l : forall kind tab tks f,
+  ticks_ok 0 tks -> facs_all f tks ->
+  let s := run_state kind tab sinit tks in
+  let now := end_time 0 tks in
+  rest (stack (ls s)) now = true -> ch s = None -> lcmd s <> None ->
+  hw_now kind s now = scaled (chan_map kind (corr f (kind_tab kind tab) (col (stack (ls s)) now))).
+Proof.
+  intros kind tab tks f T F s now R CN NE.
+  pose proof (hw_equals_logical_run_l kind tab tks T R CN) as H. fold s now in H.
+  destruct (run_state_J kind tab tks sinit 0 (J_init kind tab) ltac:(lia) T) as [(_ & LC & _) _]. fold s in LC.
+  assert (K : KF f s) by (apply run_state_KF; [exact F|left; reflexivity]).
+  destruct (lcmd s) eqn:E; [|congruence].
+  destruct K as [K|K]; [rewrite K in LC; cbn in LC; discriminate|].
+  rewrite <- K. exact H.
+Qed.
+
+(* ------------------------------------------------------------------------------------------ *)
+(* 5. _get_color_and_fade with max_fade_ms *)
+
+Lemma cfade_zero : forall st now,
+  fst (fst (cfade st 0 now)) = col st now /\ snd (fst (cfade st 0 now)) <= 0.
+Proof.
+  induction st as [|e r IH]; intro now; cbn [cfade col]; [cbn; split; [reflexivity|lia]|].
+  destruct ((t1 e =? 0) || (t1 e <=? now)) eqn:D.
+  - destruct (c1 e); [cbn; split; [reflexivity|lia]|apply IH].
+  - apply orb_false_iff in D as [D1 D2]. apply Z.leb_gt in D2.
+    assert (G : forall dest, (let target := now + 0 in
+                if target >? t1 e then (dest, t1 e - now, true)
+                else if target <=? t0 e then (start_of e, 0, false)
+                else (blend (start_of e) dest (target - t0 e) (t1 e - t0 e), 0, false)) =
+               (if now <=? t0 e then start_of e else blend (start_of e) dest (now - t0 e) (t1 e - t0 e), 0, false)).
+    { intro dest. cbn zeta. rewrite Z.add_0_r.
+      destruct (now >? t1 e) eqn:E; [apply Z.gtb_lt in E; lia|].
+      destruct (now <=? t0 e); reflexivity. }
+    destruct (c1 e) as [c|].
+    + rewrite G. cbn. split; [destruct (now <=? t0 e); reflexivity|lia].
+    + destruct (IH now) as [IH1 IH2].
+      destruct (cfade r 0 now) as [[dc lf] dd]. cbn [fst snd] in IH1, IH2.
+      assert (LF : (lf >? 0) = false) by (rewrite Z.gtb_ltb; apply Z.ltb_ge; lia). rewrite LF.
+      rewrite G. cbn. subst dc. split; [destruct (now <=? t0 e); reflexivity|lia].
+Qed.
+
+Lemma cfade_zero_is_col_l : forall st now, fst (fst (cfade st 0 now)) = col st now.
+Proof. intros. apply cfade_zero. Qed.
+
+(* an opaque entry on top whose fade is running: the colour returned is the logical colour at the end
+   of the returned fade, the fade is never longer than max_fade_ms, and "done" means the entry's own
+   colour has been reached by then *)
+Lemma cfade_opaque_l : forall e r c m now,
+  c1 e = Some c -> t1 e <> 0 -> now < t1 e -> t0 e < t1 e -> 0 <= m ->
+  let '(cl, f, d) := cfade (e :: r) m now in
+  0 <= f <= m /\ cl = col (e :: r) (now + f) /\ (d = true -> cl = c).
+Proof.
+  intros e r c m now C N0 Hn Ht Hm. cbn [cfade col]. rewrite C.
+  apply Z.eqb_neq in N0. rewrite N0.
+  destruct (t1 e <=? now) eqn:E; [apply Z.leb_le in E; lia|]. cbn [orb].
+  destruct (now + m >? t1 e) eqn:E1.
+  - apply Z.gtb_lt in E1. replace (now + (t1 e - now)) with (t1 e) by lia.
+    rewrite Z.leb_refl. cbn [orb]. split; [lia|]. split; [reflexivity|]. intros _. reflexivity.
+  - rewrite Z.gtb_ltb in E1. apply Z.ltb_ge in E1.
+    destruct (now + m <=? t0 e) eqn:E2.
+    + destruct (t1 e <=? now + m) eqn:E3; [apply Z.leb_le in E3, E2; lia|]. cbn [orb].
+      split; [lia|]. split; [rewrite E2; reflexivity|]. intro X; discriminate X.
+    + apply Z.leb_gt in E2.
+      destruct (t1 e <=? now + m) eqn:E3.
+      * apply Z.leb_le in E3. assert (EQ : now + m = t1 e) by lia. cbn [orb].
+        split; [lia|]. split; [|intro X; discriminate X].
+        rewrite EQ.
+        destruct (start_of e) as [[s1 s2] s3], c as [[d1 d2] d3]. unfold blend, blend1.
+        rewrite !Z.quot_mul by lia. f_equal; [f_equal|]; lia.
+      * cbn [orb]. split; [lia|]. split; [|intro X; discriminate X].
+        destruct (now + m <=? t0 e) eqn:E4; [apply Z.leb_le in E4; lia|reflexivity].
+Qed.
+
+Example ex_cfade :
+  cfade ex_fading 250 1125 = ((64, 191, 10), 250, false) /\ cfade ex_fading 250 1375 = ((0, 255, 10), 125, true) /\
+  cfade ex_fading 0 1125 = ((192, 63, 10), 0, false).
+Proof. vm_compute. auto. Qed.
+
+(* a complete run: white below, a dim colour faded over it and removed again with a fade, brightness 3/4 *)
+Definition ex_ticks : list tick :=
+  [mkTick 1000 3 [] [OColor (255, 255, 255) 0 1 2] [];
+   mkTick 1125 3 [] [OColor (77, 80, 90) 250 5 1] [];
+   mkTick 1250 3 [] [] [];
+   mkTick 1375 3 [] [ORemove 1 250] [];
+   mkTick 1500 3 [] [] [];
+   mkTick 1625 3 [(1625, [1])] [] []].
+
+(* on a DriverLight (software fade) *)
+Example ex_run :
+  ticks_ok 0 ex_ticks /\ facs_all 3 ex_ticks /\
+  let s := run_state 3 [] sinit ex_ticks in
+  rest (stack (ls s)) 1625 = true /\ ch s = None /\ col (stack (ls s)) 1625 = (255, 255, 255) /\
+  hw_now 3 s 1625 = scaled [191] /\ lcmd s <> None /\
+  ch (run_state 3 [] sinit (firstn 2 ex_ticks)) <> None.
+Proof. vm_compute. repeat split; try lia; try congruence; repeat constructor. Qed.
+
+(* on an RGBW light, white_only *)
+Example ex_run_rgbw :
+  hw_now 7 (run_state 7 [] sinit ex_ticks) 1625 = scaled [0; 0; 0; 191] /\
+  hw_now 7 (run_state 7 [] sinit (firstn 3 ex_ticks)) 1250 <> scaled [0; 0; 0; 191].
+Proof. vm_compute. split; congruence. Qed.
